@@ -18,6 +18,8 @@ assert sh('git -C /repo diff --quiet')[0] == 0, '/repo has uncommitted changes'
 sh('rm -rf /var/tmp/evidence_keep && cp -r %s/evidence /var/tmp/evidence_keep' % VERIF)
 import atexit
 atexit.register(lambda: sh('rm -rf %s/evidence && mv /var/tmp/evidence_keep %s/evidence' % (VERIF, VERIF)))
+# ... nor the files generated from the changed sources
+atexit.register(lambda: sh('git -C /repo checkout -- . ; PYTHONPATH=/repo:%s /venv/bin/python -c "from harness import core; core.translate_sources()"' % VERIF, cwd=VERIF))
 for mid in ids:
     pid = mid[:3]
     patch = os.path.join(VERIF, 'seeded', mid, 'patch.diff')
